@@ -285,6 +285,13 @@ def assemble(unit_names, workdir, repo=None):
                     emit(header + " {\n", un, None)
                     open_container = cont
             text = weave(e, o)
+            if o['kind'] == 'trait-impl' and 'container' in e.opts and ' for ' not in str(e.opts['container']) \
+                    and text.lstrip().startswith('fn '):
+                # a trait method re-homed into an inherent impl keeps the visibility it had through the trait
+                text = 'pub ' + text.lstrip()
+            if 'attr' in e.opts:
+                # a verifier attribute on an extracted type (ignored by rustc)
+                text = str(e.opts['attr']) + "\n" + text
             desc = {"unit": un, "file": 'src/' + o['file'], "sel": o['sel'], "name": o['name'],
                     "line_start": o['line_start'], "line_end": o['line_end'],
                     "sha256": sha(o['original']), "rules": o['rules'], "kind": o['kind'],
